@@ -27,9 +27,9 @@ def norm_model(m):
     calls = []
     for c in m["calls"]:
         calls.append({"path": c["path"], "idx": c["idx"], "args": [list(a) for a in c["args"]],
-                      "step": c["step"], "frame": c["frame"], "node": c["node"]})
+                      "step": c["step"], "frame": c["frame"], "node": c["node"], "dec": list(c["dec"])})
     return {"status": m["status"], "values": vals, "err": m["err"], "pause": m["pause"], "calls": calls,
-            "steps": m["steps"], "aux": m.get("aux", {})}
+            "steps": m["steps"], "aux": m.get("aux", {}), "done": [d["path"] for d in m.get("done", [])]}
 
 
 def try_real(job, **kw):
@@ -50,3 +50,17 @@ def per_node(calls):
 
 def projection(calls, a, b):
     return [c["path"] for c in calls if c["path"] in (a, b)]
+
+
+def trace_l1(items, prop, workers=4, procs=None, timeout=1800):
+    """Evaluate the L1 monitors of `prop` with TLC on recorded real call logs.
+    items: [{id, prog, provided, calls, done}] -> {id: [failed clause names]}"""
+    res, stats = tlc.run_batch("TraceL1", items, "HG_TRACES", cfg=f"TraceL1_{prop}.cfg", workers=workers, procs=procs, timeout=timeout)
+    return {k: list(v["failed"]) for k, v in res.items()}, stats
+
+
+def trace_item(job, obs):
+    return {"id": job["id"], "prog": job["prog"], "provided": job["provided"],
+            "calls": [{"path": c["path"], "frame": c["frame"], "node": c["node"], "step": 0, "idx": c["idx"],
+                       "args": c["args"], "dec": c["dec"]} for c in obs["calls"]],
+            "done": []}
